@@ -200,7 +200,7 @@ class Ctx:
     def pick(self, quick, thorough):
         return quick if self.tier == "quick" else thorough
 
-    def run_blocks(self, fn, blocks, parallel=True):
+    def run_blocks(self, fn, blocks, parallel=True, fresh=False):
         """fn(block, agg) explores one block on the real code. Blocks are sharded over
         forked workers (fork once per worker, never per execution)."""
         blocks = list(blocks)
@@ -209,14 +209,58 @@ class Ctx:
         # rotate shard assignment by seed: coverage identical, scheduling differs
         r = self.seed % len(blocks)
         blocks = blocks[r:] + blocks[:r]
-        if not parallel or self.workers <= 1 or len(blocks) == 1:
+        if (not parallel or self.workers <= 1 or len(blocks) == 1) and not fresh:
             for b in blocks:
                 self.agg.merge(_worker((fn, b)))
             return
+        if fresh:
+            return self._run_fresh(fn, blocks)
         ctx = mp.get_context("fork")
-        with ctx.Pool(min(self.workers, len(blocks))) as pool:
+        # fresh=True: every block runs in a worker forked from THIS process just for it, so no block sees process
+        # state (caches, counters) left behind by another block
+        with ctx.Pool(max(1, min(self.workers, len(blocks))), maxtasksperchild=1 if fresh else None) as pool:
             for part in pool.imap_unordered(_worker, [(fn, b) for b in blocks], chunksize=1):
                 self.agg.merge(part)
+
+
+def _run_fresh(self, fn, blocks):
+    """every block in its own child forked from THIS process (no state shared between blocks)"""
+    import pickle
+    import tempfile
+
+    tmp = tempfile.mkdtemp(prefix="mc-fresh-")
+    pending = list(enumerate(blocks))[::-1]
+    running = {}
+    try:
+        while pending or running:
+            while pending and len(running) < self.workers:
+                i, b = pending.pop()
+                path = os.path.join(tmp, f"{i}.pkl")
+                pid = os.fork()
+                if pid == 0:
+                    try:
+                        agg = _worker((fn, b))
+                        with open(path, "wb") as f:
+                            pickle.dump(agg, f)
+                    finally:
+                        os._exit(0)
+                running[pid] = (path, b)
+            pid, status = os.wait()
+            if pid in running:
+                path, b = running.pop(pid)
+                if os.path.exists(path):
+                    with open(path, "rb") as f:
+                        self.agg.merge(pickle.load(f))
+                    os.unlink(path)
+                else:
+                    self.agg.notes.add(f"HARNESS-ERROR block {b!r}: child died without a result (status {status})")
+    finally:
+        import shutil
+
+        shutil.rmtree(tmp, ignore_errors=True)
+
+
+Ctx._run_fresh = _run_fresh
 
 
 # ---------------------------------------------------------------------------------------
